@@ -132,6 +132,42 @@ fn case_repr(t: &mut Tape, info: &mut CaseInfo) -> Result<(), String> {
             Some(b) => compare(b, &res, info)?,
         }
     }
+    // the same set plus lazer-only mods without settings (Classic, HoldOff / Invert for mania, Blinds, ...): no
+    // legacy bits exist for those, but the owned intermode, the borrowed intermode and the lazer representation
+    // (default settings) must still agree with each other
+    if t.chance(1, 2) {
+        let mut extras = Vec::new();
+        if t.chance(1, 2) {
+            extras.push(LazerExtra::Classic);
+        }
+        if target == GameMode::Mania {
+            if t.chance(1, 3) {
+                extras.push(LazerExtra::HoldOff);
+            }
+            if t.chance(1, 3) {
+                extras.push(LazerExtra::Invert);
+            }
+        }
+        if t.chance(1, 2) {
+            extras.push(LazerExtra::Acronym(*t.pick(&crate::gen::diff::LAZER_ACRONYMS)));
+        }
+        if !extras.is_empty() {
+            let mut first: Option<Vec<(String, crate::canon::Dump)>> = None;
+            for repr in [ModRepr::Intermode, ModRepr::IntermodeRef, ModRepr::Lazer] {
+                let ms = ModsSpec { bits, repr, extras: extras.clone() };
+                if repr == ModRepr::Lazer && ms.lazer(target).is_none() {
+                    continue;
+                }
+                let mods = ms.build(target);
+                let res = all_results(&format!("{repr:?} + {extras:?}"), &with_others(&mods), &map, target, &score, &mods)?;
+                match &first {
+                    None => first = Some(res),
+                    Some(b) => compare(b, &res, info)?,
+                }
+            }
+            info.label("lazer-only-mods-leg");
+        }
+    }
     // the From<&GameModsIntermode> fast path and bits round trip
     let inter = GameModsIntermode::from_bits(bits);
     if let Some(legacy_bits) = inter.checked_bits() {
@@ -240,6 +276,23 @@ fn case_rate_and_da(t: &mut Tape, info: &mut CaseInfo) -> Result<(), String> {
             return Err(format!("[{}] vs [{}]: {diff}", a[idx].0, b[idx].0));
         }
     }
+    // a settings object that carried the lazer mods (and was used with them) and is then given other mods must
+    // behave like a fresh one with those mods: nothing derived from the earlier mods may survive `mods(..)`
+    {
+        let plain_lazer = ModsSpec { bits: base_bits, repr: ModRepr::Lazer, extras: Vec::new() }.build(target);
+        for (name, next) in [("the legacy mods", legacy_mods.clone()), ("lazer mods without settings", plain_lazer)] {
+            let used = lazer_d.clone();
+            let _ = calc_for_mode(&used, &map, target)?;
+            let reused = used.mods(next.clone());
+            let fresh = Difficulty::new().mods(next);
+            let x = calc_for_mode(&reused, &map, target)?;
+            let y = calc_for_mode(&fresh, &map, target)?;
+            info.comparisons += 1;
+            if let Some(diff) = x.dump().diff(&y.dump()) {
+                return Err(format!("Difficulty with lazer {what}, used once, then given {name}, vs a fresh Difficulty with {name}: {diff}"));
+            }
+        }
+    }
     info.label(if which < 4 { "rate" } else { "difficulty-adjust" });
     info.nontrivial = spec.objects.len() >= 2;
     info.set_key(&format!("{spec:?}{target:?}{base_bits}{what}{score:?}"));
@@ -252,7 +305,7 @@ pub fn property() -> Property {
         subchecks: vec![
             SubCheck {
                 name: "mod-representations",
-                rule: "G-MAP (all modes + converts, <=30 objects) x legacy-representable mod bits (subsets of NF EZ TD HD HR DT NC HT FL SO RX AP incl. a share of incompatible selections, NC always as 576, key mods 1K-9K) x the remaining settings (lazer flag unset/true/false, clock rate, overrides, hardrock_offsets, passed_objects; identical for every representation) x score spec. Oracle: difficulty, strains, performance (settings via Difficulty and via Performance::mods), BeatmapAttributesBuilder::mods(..).build()/hit_windows() are same-value-equal for u32, GameModsLegacy, GameModsIntermode, &GameModsIntermode and lazer intermode.try_with_mode(mode) (lazer leg skipped and labelled when the mode lacks a mod). Non-trivial: mods != NoMod and some result differs from the NoMod result.",
+                rule: "G-MAP (all modes + converts, <=30 objects) x legacy-representable mod bits (subsets of NF EZ TD HD HR DT NC HT FL SO RX AP incl. a share of incompatible selections, NC always as 576, key mods 1K-9K) x the remaining settings (lazer flag unset/true/false, clock rate, overrides, hardrock_offsets, passed_objects; identical for every representation) x score spec. Oracle: difficulty, strains, performance (settings via Difficulty and via Performance::mods), BeatmapAttributesBuilder::mods(..).build()/hit_windows() are same-value-equal for u32, GameModsLegacy, GameModsIntermode, &GameModsIntermode and lazer intermode.try_with_mode(mode) (lazer leg skipped and labelled when the mode lacks a mod); in half of the cases additionally with lazer-only mods without settings (Classic, HoldOff/Invert, Blinds, ...) across the owned intermode, borrowed intermode and lazer representations. Non-trivial: mods != NoMod and some result differs from the NoMod result.",
                 quick: 15_000,
                 thorough: 100_000,
                 tape_len: 1400,
